@@ -28,6 +28,11 @@ func (kgraph *KVGraph) AddGraph(graph string) error {
 func (kgraph *KVGraph) DeleteGraph(graph string) error {
 	kgraph.ts.Touch(graph)
 
+	// the graph key goes first: once it is gone the graph is no longer listed, so a crash
+	// during the prefix deletes below cannot expose a half-deleted graph
+	graphKey := GraphKey(graph)
+	kgraph.kv.Delete(graphKey)
+
 	eprefix := EdgeListPrefix(graph)
 	kgraph.kv.DeletePrefix(eprefix)
 
@@ -39,9 +44,6 @@ func (kgraph *KVGraph) DeleteGraph(graph string) error {
 
 	dprefix := DstEdgeListPrefix(graph)
 	kgraph.kv.DeletePrefix(dprefix)
-
-	graphKey := GraphKey(graph)
-	kgraph.kv.Delete(graphKey)
 
 	kgraph.deleteGraphIndex(graph)
 
